@@ -2,6 +2,7 @@ import RodbusModel.Model.Tls
 /-
   `tls` suite: expected outcome of a handshake of the grid (C09).
   tls srv <min> <mode> <authz> <peer versions> <peer cert[+extra cert]|none> [<expected ss cert>]
+  tls srvseq <min> <mode> <authz> <peer versions> <peer>,<peer>,… [<expected ss cert>]   (one server, several peers)
   tls cli <min> <mode> <peer versions> <server cert> <server name|-> [<expected ss cert>]
 -/
 namespace Rodbus.Driver
@@ -43,18 +44,26 @@ def idOf (name : String) : Nat := match certOf name with | some c => c.bytesId |
 
 def roleTok (r : String) : String := "r" ++ toHex (r.toUTF8.toList.map (·.toNat))
 
+/-- what the harness observes of one server-side admission -/
+def srvGroup : Option Admission → String
+  | none => "hs=fail ver=- reply=- role=- calls=0"
+  | some a =>
+    let role := match a.role with | some r => roleTok r | none => "-"
+    s!"hs=ok ver={verStr a.version} reply=00070000000501030203d6 role={role} calls=1"
+
+/-- `a+b`: certificate a followed by the extra certificate b in the Certificate message -/
+def chainOf (peer : String) : List Cert := (peer.splitOn "+").filterMap certOf
+
 def runTls (tok : List String) : String × String :=
   let out : String :=
     match tok with
     | _ :: "srv" :: mn :: mode :: authz :: vers :: peer :: rest =>
       let m : Mode := if mode = "ca" then .authority 1 else .selfSigned (idOf (rest.headD "ss_b"))
-      -- `a+b`: certificate a followed by the extra certificate b in the Certificate message
-      let chain := (peer.splitOn "+").filterMap certOf
-      match admitServerChain (minOf mn) m (authz = "1") (versOf vers) chain with
-      | none => "hs=fail ver=- reply=- role=- calls=0"
-      | some a =>
-        let role := match a.role with | some r => roleTok r | none => "-"
-        s!"hs=ok ver={verStr a.version} reply=00070000000501030203d6 role={role} calls=1"
+      srvGroup (admitServerChain (minOf mn) m (authz = "1") (versOf vers) (chainOf peer))
+    | _ :: "srvseq" :: mn :: mode :: authz :: vers :: peers :: rest =>
+      let m : Mode := if mode = "ca" then .authority 1 else .selfSigned (idOf (rest.headD "ss_b"))
+      let ps : List Peer := (peers.splitOn ",").map fun p => (versOf vers, chainOf p)
+      " ; ".intercalate ((admitServerSeq (minOf mn) m (authz = "1") ps).map srvGroup)
     | _ :: "cli" :: mn :: mode :: vers :: srv :: name :: rest =>
       -- `cad` / `ssd`: the same through the deprecated constructor `TlsClientConfig::new`
       let ca := mode = "ca" ∨ mode = "cad"
